@@ -34,6 +34,14 @@ def run(R):
                 tree = box.Tree({b"f": ("f", gen.render(a, "keep"), old), b"p.diff": ("f", text, 0o644)})
                 jobs.append(dict(cut=R.cut, tree=tree, argv=opts + [b"-p1", b"-i", b"p.diff"]))
                 meta.append(("git-mode", old, opts, "hunk" if with_hunk else "mode-only", 0, new))
+    # the same headers applied with -R to the patched state: old and new mode are exchanged
+    for old, new in ((0o644, 0o755), (0o755, 0o644)):
+        for with_hunk in (False, True):
+            text = emit.git_text(hs if with_hunk else [], b"f", b"f", "change", b"100%o" % old, b"100%o" % new)
+            for opts in ([], [b"-b"]):
+                tree = box.Tree({b"f": ("f", gen.render(b if with_hunk else a, "keep"), new), b"p.diff": ("f", text, 0o644)})
+                jobs.append(dict(cut=R.cut, tree=tree, argv=opts + [b"-R", b"-p1", b"-i", b"p.diff"]))
+                meta.append(("git-mode", new, opts + [b"-R"], "hunk" if with_hunk else "mode-only", 0, old))
     text = emit.git_text(gen.make_hunks([], b, 3), b"n", b"n", "add", None, b"100755")
     jobs.append(dict(cut=R.cut, tree=box.Tree({b"p.diff": ("f", text, 0o644)}), argv=[b"-p1", b"-i", b"p.diff"])); meta.append(("git-new", 0, [], "new file mode", 0, 0o755))
     # a renamed or copied file keeps the mode of the file it comes from
@@ -44,14 +52,27 @@ def run(R):
                 tree = box.Tree({b"f": ("f", gen.render(a, "keep"), m), b"p.diff": ("f", text, 0o644)})
                 jobs.append(dict(cut=R.cut, tree=tree, argv=[b"-p1", b"-i", b"p.diff"])); meta.append(("git-move", m, [op.encode()], "hunk" if with_hunk else "pure", 0, m))
     # refusals: directory / FIFO / symlink-to-dir targets, Prereq under --batch
-    for kind, node in (("directory", ("d", 0o755)), ("fifo", ("p", 0o644))):
-        for opts in ([], [b"--dry-run"]):
+    for kind, node in (("directory", ("d", 0o755)), ("fifo", ("p", 0o644)), ("directory", ("d", 0o555)), ("fifo", ("p", 0o444)), ("fifo", ("p", 0o400))):
+        for opts in ([], [b"--dry-run"], [b"--read-only=warn"], [b"--read-only=ignore"], [b"--read-only=fail"], [b"-b"]):
             tree = box.Tree({b"f": node, b"p.diff": ("f", text_u, 0o644)})
-            jobs.append(dict(cut=R.cut, tree=tree, argv=opts + [b"-i", b"p.diff"])); meta.append(("refuse", 0, opts, kind, 0, None))
+            jobs.append(dict(cut=R.cut, tree=tree, argv=opts + [b"-i", b"p.diff"])); meta.append(("refuse", node[1], opts, kind, 0, None))
+    # a symbolic link to a read-only directory: the link and the directory it points to stay as they are
+    for opts in ([], [b"--read-only=warn"], [b"--read-only=ignore"]):
+        tree = box.Tree({b"dir": ("d", 0o500), b"f": ("l", b"dir"), b"p.diff": ("f", text_u, 0o644)})
+        jobs.append(dict(cut=R.cut, tree=tree, argv=opts + [b"-i", b"p.diff"])); meta.append(("refuse-link", 0o500, opts, "symlink to directory", 0, None))
+    # aborts after the read-only check: Prereq text missing under --batch, a hunk that can not be parsed, a second section that is corrupt
     pre = b"Prereq: version-9\n" + text_u
-    for opts in ([b"--batch"], [b"-f"]):
-        tree = box.Tree({b"f": ("f", gen.render(a, "keep"), 0o640), b"p.diff": ("f", pre, 0o644)})
-        jobs.append(dict(cut=R.cut, tree=tree, argv=opts + [b"-i", b"p.diff"])); meta.append(("prereq", 0o640, opts, "missing", 0, None))
+    broken = text_u.rsplit(b"\n", 2)[0] + b"\n"            # the last line of the hunk is missing: 'unexpected end' style abort
+    for m in (0o640, 0o444, 0o400, 0o555):
+        for opts in ([b"--batch"], [b"-f"], [b"--batch", b"-b"], [b"--batch", b"--read-only=ignore"]):
+            tree = box.Tree({b"f": ("f", gen.render(a, "keep"), m), b"p.diff": ("f", pre, 0o644)})
+            jobs.append(dict(cut=R.cut, tree=tree, argv=opts + [b"-i", b"p.diff"])); meta.append(("prereq", m, opts, "missing", 0, None))
+        for opts in ([], [b"-b"], [b"--read-only=ignore"]):
+            tree = box.Tree({b"f": ("f", gen.render(a, "keep"), m), b"p.diff": ("f", broken, 0o644)})
+            jobs.append(dict(cut=R.cut, tree=tree, argv=opts + [b"-i", b"p.diff"])); meta.append(("abort", m, opts, "truncated hunk", 0, None))
+            gitp = emit.git_text(hs, b"f", b"f", "change") + b"diff --git a/g b/g\n--- a/g\n+++ b/g\n@@ -1,1 +1,1 @@\n-x\n"
+            tree = box.Tree({b"f": ("f", gen.render(a, "keep"), m), b"g": ("f", b"x\n", 0o644), b"p.diff": ("f", gitp, 0o644)})
+            jobs.append(dict(cut=R.cut, tree=tree, argv=opts + [b"-p1", b"-i", b"p.diff"])); meta.append(("abort", m, opts, "git: later section corrupt", 0, None))
     res = drv.run_many(jobs)
     dist = {}
     for (what, m, opts, kind, uid, newmode), r in zip(meta, res):
@@ -86,9 +107,18 @@ def run(R):
         elif what == "git-move":
             if r.exit != 0 or b"g" not in r.after or r.after[b"g"][2] != newmode:
                 R.oracle_fail(f"git {opts[0].decode()} of a file with mode {oct(m)}: the new file has mode {oct(r.after[b'g'][2]) if b'g' in r.after else 'none (missing)'} (exit {r.exit})", data)
+        elif what == "refuse-link":
+            d0, d1 = r.before.get(b"dir"), r.after.get(b"dir")
+            if r.exit == 0 or f1[:2] != f0[:2] or d1[:3] != d0[:3]:
+                R.oracle_fail(f"a symbolic link to a directory was not refused cleanly (exit {r.exit}, directory mode {oct(d0[2])} -> {oct(d1[2])})", data)
+        elif what == "abort":
+            if r.exit != 2 and kind == "truncated hunk":
+                continue   # (the parser made sense of it after all: not an abort)
+            if r.exit == 2 and (f1 is None or f1[:3] != f0[:3]):
+                R.oracle_fail(f"patch aborted (exit 2, {kind}) and left the target changed: mode {oct(f0[2])} -> {oct(f1[2]) if f1 else 'gone'}", data)
         elif what == "refuse":
-            if r.exit == 0 or (f1[0], f1[2]) != (f0[0], f0[2]):
-                R.oracle_fail(f"a {kind} target was not refused cleanly (exit {r.exit})", data)
+            if r.exit == 0 or f1 is None or (f1[0], f1[2]) != (f0[0], f0[2]):
+                R.oracle_fail(f"a {kind} target was not refused cleanly (exit {r.exit}, mode {oct(f0[2])} -> {oct(f1[2]) if f1 else 'gone'})", data)
             elif r.exit == 1 and b"ignored" not in r.stdout:
                 R.oracle_fail("refused target: hunks not reported as ignored", data)
         elif what == "prereq":
@@ -105,5 +135,5 @@ def run(R):
 
 RULE = ("a fixed three-line file under a sample of 9-bit permission patterns x {-b, --read-only=warn/ignore/fail, -o, --no-backup-if-mismatch} x {exact, offset "
         "(mismatch backup)} x {root, unprivileged}; git old/new mode and new-file-mode headers with and without hunks and backups; directory and FIFO "
-        "targets; Prereq under --batch and -f. Mode after = mode before unless a git header sets it; refusals leave bytes and mode unchanged, exit non-zero.")
+        "targets (also read-only ones, and a link to a read-only directory); the git mode headers again with -R; Prereq under --batch and -f and aborts by a corrupt hunk / corrupt later git section on read-only targets. Mode after = mode before unless a git header sets it; refusals leave bytes and mode unchanged, exit non-zero.")
 ASSUME = ["umask 022 in the sandbox"]
